@@ -8,3 +8,6 @@ pub assume_specification<T, F: FnOnce(T) -> bool>[ Option::<T>::is_some_and ](o:
     requires o matches Some(x) ==> f.requires((x,)),
     ensures match o { None => !r, Some(x) => f.ensures((x,), r) },
 ;
+pub assume_specification<'a, T: Copy>[ Option::<&'a T>::copied ](o: Option<&'a T>) -> (r: Option<T>)
+    ensures r == (match o { Some(x) => Some(*x), None => None }),
+;
